@@ -162,6 +162,28 @@ def _fmt_format(I, f, a):
     return Bytes(merge_lits(parts), is_str=True)
 
 
+@model("std::io::Write::write_fmt")
+def _io_write_fmt(I, f, a):
+    """`write!(vec, ...)` on an in-memory Vec<u8>: appends the formatted text, cannot fail"""
+    w = deref(I, a[0])
+    fa = a[1]
+    if not isinstance(fa, FmtArguments):
+        raise I.unanalysable("io::Write::write_fmt of %s" % type(fa).__name__)
+    parts = []
+    for p in fa.parts:
+        if p[0] == "sub":
+            parts.extend(p[1].parts)
+        else:
+            parts.append(p)
+    if isinstance(w, Bytes) and not w.is_str:
+        M.bytes_append(I, w, merge_lits(parts))
+    elif hasattr(w, "extend_from_slice") and type(w).__name__ == "AbsOutput" and getattr(I, "summ", None) is None:
+        w.extend_from_slice(I, Bytes(merge_lits(parts)))
+    else:
+        raise I.unanalysable("io::Write::write_fmt on %s" % type(w).__name__)
+    return ok(unit())
+
+
 def merge_lits(parts):
     out = []
     for p in parts:
@@ -176,7 +198,7 @@ def merge_lits(parts):
 
 # ---------------------------------------------------------------------------------------
 # String / str
-@model("std::string::String::new")
+@model("std::string::String::new", "std::string::String::with_capacity")
 def _string_new(I, f, a):
     return Bytes([], is_str=True)
 
@@ -468,17 +490,24 @@ def _replace(I, f, a):
 def _string_push(I, f, a):
     s = as_str(I, a[0])
     c = a[1]
-    if isinstance(c, int):
-        s.parts.append(("lit", chr(c).encode()))
+    sm = getattr(I, "summ", None)
+    if sm is not None and c is sm.cur and is_sym(c):
+        M.bytes_append(I, s, [("self",)])
+    elif isinstance(c, int):
+        M.bytes_append(I, s, [("lit", chr(c).encode())])
     else:
-        s.parts.append(("pay", Payload("str", M.char_set(I, c), 1, origin="push")))
+        M.bytes_append(I, s, [("pay", Payload("str", M.char_set(I, c), 1, origin="push"))])
     return unit()
 
 
 @model("std::string::String::push_str")
 def _string_push_str(I, f, a):
     s = as_str(I, a[0])
-    s.parts.extend(as_str(I, a[1]).parts)
+    src = as_str(I, a[1])
+    sm = getattr(I, "summ", None)
+    if sm is not None and (any(src is t for t, _ in sm.tables.values()) or any(src is t for t, _ in sm.log)):
+        raise I.unanalysable("push_str of a string that the summarised loop itself builds")
+    M.bytes_append(I, s, src.parts)
     return unit()
 
 
@@ -497,7 +526,9 @@ class CharsIt(It):
         return NotImplemented
 
     def next(self, I):
-        raise I.unanalysable("element-wise chars() iteration")
+        if getattr(self, "_pay", None) is None:
+            self._pay = M.PayIt(self.b, "c", False)
+        return self._pay.next(I)
 
 
 class CharsTake(It):
